@@ -143,6 +143,7 @@ type Enc struct {
 	atResTypes     []types.Type
 	siteOrd        map[ssa.Instruction]int
 	siteOrdQ       map[ssa.Instruction]int
+	siteOrdF       map[ssa.Instruction]int // ordinal among the sends / receives on the channel of the same name
 	curInstr       ssa.Instruction
 	callLog        map[string]SV
 	replayTerm     map[string]SV
